@@ -1,6 +1,6 @@
 import Pcore.Model.Dispatch
 /-!
-# Three constructors on the driver's alphabet (property C16, `new`)
+# Four constructors on the driver's alphabet (property C16, `new`)
 
 `new` = receiver resolution + the constructor's dispatch table (built by the same builder calls as any function) + the body
 of the dispatch that matched + `AssertInstance(receiver, result)`.  Modelled constructors, restricted to the alphabet
@@ -13,6 +13,8 @@ values (Integer, String, Boolean, Undef, Default, Array — no Float, Hash, Time
 | strconv.ParseInt(s, radix, 64) for radix ∈ {2,8,10,16}    | `parseInt` (modelled, §5)    |
 | types/booleantype.go `newGoConstructor("Boolean", …)`     | `booleanCtor`                |
 | types/arraytype.go `newGoConstructor3(["Array","Tuple"])` | `arrayCtor`                  |
+| types/hashtype.go `newGoConstructor3(["Hash","Struct"])` (key-value array and Iterable dispatches; the tree-array body is not modelled) | `hashCtor` |
+| types/hashtype.go `WrapHashFromArray`                     | `hashFromArray`              |
 | types/stringtype.go `stringValue.Elements` + `WrapValues` | `stringElements`             |
 | types/inittype.go `InitType.New` (without init arguments) | `initCall`                   |
 | types/types.go `newInstance` constructor lookup by `Name()` | `ctorOf`, `recvOf`         |
@@ -145,6 +147,56 @@ def arrayCtor : Ctor where
     | .str s :: _ => stringElements s
     | _ => .fault                                 -- arg.(px.Arrayable) of a value that is not; args[0] of an empty list
 
+/-! #### Hash / Struct -/
+
+def isArr : Val → Bool
+  | .arr _ => true
+  | _ => false
+
+/-- consecutive pairs of a flat array (`EachSlice(2, …)`; the length is even) -/
+def pairUp : List Val → List (Val × Val)
+  | k :: v :: rest => (k, v) :: pairUp rest
+  | _ => []
+
+/-- `[key, value]` arrays; `none` = one of them does not have 2 elements -/
+def pairsOf : List Val → Option (List (Val × Val))
+  | [] => some []
+  | .arr [k, v] :: rest => (pairsOf rest).map ((k, v) :: ·)
+  | _ => none
+
+/-- `WrapHashFromArray`: when the element type of the array is an Array type (all elements are arrays) every element must
+    be a `[key, value]` pair; otherwise the array is read as `k1, v1, k2, v2, …` -/
+def hashFromArray (vs : List Val) : CtorResult Val :=
+  if !vs.isEmpty && vs.all isArr then
+    match pairsOf vs with
+    | some es => .value (.hash es)
+    | none => .reported "ILLEGAL_ARGUMENTS"
+  else if vs.length % 2 != 0 then .reported "ILLEGAL_ARGUMENTS"
+  else .value (.hash (pairUp vs))
+
+def treeArray : Ty := .arr (.tuple [.arr .any 0 none, .any]) 1 none
+def keyValueArray : Ty := .arr (.tuple [.any, .any]) 1 none
+/-- `Iterable` on the alphabet: arrays, hashes and strings are `px.Indexed` -/
+def iterableTy : Ty := .var [.arr .any 0 none, .hash .any .any 0 none, .str 0 none]
+
+/-- the constructor registered for `Hash` and `Struct`.  The body of the first dispatch (tree arrays) is NOT modelled:
+    it answers `UNMODELLED`, which `newModel` turns into "no answer" (the driver refuses the op) -/
+def hashCtor : Ctor where
+  creators :=
+    [ { ops := [.param treeArray, .optional (.enum ["tree", "hash_tree"])], kind := .fn },
+      { ops := [.param keyValueArray], kind := .fn },
+      { ops := [.param iterableTy], kind := .fn } ]
+  body := fun i args =>
+    match i, args with
+    | 0, _ => .reported "UNMODELLED"
+    | 1, .arr vs :: _ => hashFromArray vs                 -- WrapHashFromArray(args[0].(*Array))
+    | 2, .arr vs :: _ => hashFromArray vs
+    | 2, .hash es :: _ => .value (.hash es)
+    | 2, .str s :: _ => (match stringElements s with      -- arg.(px.Arrayable).AsArray()
+        | .value (.arr vs) => hashFromArray vs
+        | other => other)
+    | _, _ => .fault
+
 inductive CtorLookup where
   | none                    -- no constructor is registered under the type's name
   | unmodelled              -- there is one, but this model does not cover it (String)
@@ -155,6 +207,9 @@ def ctorOf : Ty → CtorLookup
   | .int _ _ => .some integerCtor
   | .bool => .some booleanCtor
   | .arr _ _ _ => .some arrayCtor
+  | .tuple _ => .some arrayCtor
+  | .hash _ _ _ _ => .some hashCtor
+  | .struct _ => .some hashCtor
   | .str _ _ => .unmodelled
   | _ => .none
 
@@ -197,6 +252,10 @@ def recvOf : RecvTy → Option (Recv Ty Val)
   | .initDefault => some .initDefault
 
 def newModel (r : RecvTy) (args : List Val) : Option (NewOutcome Val) :=
-  (recvOf r).map fun recv => newInstance inst recv args
+  match recvOf r with
+  | none => none
+  | some recv => match newInstance inst recv args with
+    | .reported "UNMODELLED" => none
+    | o => some o
 
 end Pcore.Dispatch.Alpha
